@@ -3,7 +3,9 @@
   word (XMT/State.lean) are PROVED equal to the definitions regenerated from the current source by the
   Go→Lean translator (go/cmd/xmth/xlate.go), `XMT.Facts.x_c2_state_*`.  Every
   `atomic.LoadUint32((*uint32)(s))` of one predicate is the same parameter `s` (one snapshot of the word,
-  as in the hand model). The `state*` constants inside the regenerated terms are the values go/constant
+  as in the hand model); since the repair of the closed-then-load predicates (one `v := load`, decided
+  on `v`) that is literally what the source does, and the regenerated terms are `let v := s; …&&…||…`
+  where the hand model has the nested `if`s of the earlier source — equal for every word, proved here. The `state*` constants inside the regenerated terms are the values go/constant
   computes from the `1 << iota` block; the models use `Facts.state*` (values of the compiled package):
   the two routes to the constants are compared here as well.
   Kept apart from XMT/TieXlate.lean so that an edit of c2/state.go cannot break the C01 build.
@@ -35,21 +37,29 @@ macro "xl_state" : tactic => `(tactic| (
 
 theorem x_c2_state_Seen_eq (s : Nat) : Facts.x_c2_state_Seen s = seen s := by xl_state
 theorem x_c2_state_Closed_eq (s : Nat) : Facts.x_c2_state_Closed s = closed s := by xl_state
-theorem x_c2_state_Ready_eq (s : Nat) : Facts.x_c2_state_Ready s = ready s := by xl_state
+theorem x_c2_state_Ready_eq (s : Nat) : Facts.x_c2_state_Ready s = ready s := by
+  xl_state <;> by_cases h : s &&& 4 = 0 <;> simp [h]
 theorem x_c2_state_Moving_eq (s : Nat) : Facts.x_c2_state_Moving s = moving s := by xl_state
-theorem x_c2_state_CanRecv_eq (s : Nat) : Facts.x_c2_state_CanRecv s = canRecv s := by xl_state
-theorem x_c2_state_Closing_eq (s : Nat) : Facts.x_c2_state_Closing s = closing s := by xl_state
+theorem x_c2_state_CanRecv_eq (s : Nat) : Facts.x_c2_state_CanRecv s = canRecv s := by
+  xl_state <;> by_cases h : s &&& 4 = 0 <;> simp [h]
+theorem x_c2_state_Closing_eq (s : Nat) : Facts.x_c2_state_Closing s = closing s := by
+  xl_state <;> by_cases h : s &&& 4 = 0 <;> simp [h]
 theorem x_c2_state_Channel_eq (s : Nat) : Facts.x_c2_state_Channel s = channel s := by xl_state
-theorem x_c2_state_Shutdown_eq (s : Nat) : Facts.x_c2_state_Shutdown s = shutdown s := by xl_state
+theorem x_c2_state_Shutdown_eq (s : Nat) : Facts.x_c2_state_Shutdown s = shutdown s := by
+  xl_state <;> by_cases h : s &&& 4 = 0 <;> simp [h]
 theorem x_c2_state_Replacing_eq (s : Nat) : Facts.x_c2_state_Replacing s = replacing s := by xl_state
-theorem x_c2_state_RecvClosed_eq (s : Nat) : Facts.x_c2_state_RecvClosed s = recvClosed s := by xl_state
-theorem x_c2_state_SendClosed_eq (s : Nat) : Facts.x_c2_state_SendClosed s = sendClosed s := by xl_state
-theorem x_c2_state_WakeClosed_eq (s : Nat) : Facts.x_c2_state_WakeClosed s = wakeClosed s := by xl_state
+theorem x_c2_state_RecvClosed_eq (s : Nat) : Facts.x_c2_state_RecvClosed s = recvClosed s := by
+  xl_state <;> by_cases h : s &&& 4 = 0 <;> simp [h]
+theorem x_c2_state_SendClosed_eq (s : Nat) : Facts.x_c2_state_SendClosed s = sendClosed s := by
+  xl_state <;> by_cases h : s &&& 4 = 0 <;> simp [h]
+theorem x_c2_state_WakeClosed_eq (s : Nat) : Facts.x_c2_state_WakeClosed s = wakeClosed s := by
+  xl_state <;> by_cases h : s &&& 4 = 0 <;> simp [h]
 theorem x_c2_state_ShutdownWait_eq (s : Nat) : Facts.x_c2_state_ShutdownWait s = shutdownWait s := by xl_state
 theorem x_c2_state_ChannelValue_eq (s : Nat) : Facts.x_c2_state_ChannelValue s = channelValue s := by xl_state
 theorem x_c2_state_ChannelProxy_eq (s : Nat) : Facts.x_c2_state_ChannelProxy s = channelProxy s := by xl_state
 theorem x_c2_state_ChannelUpdated_eq (s : Nat) : Facts.x_c2_state_ChannelUpdated s = channelUpdated s := by xl_state
-theorem x_c2_state_ChannelCanStart_eq (s : Nat) : Facts.x_c2_state_ChannelCanStart s = channelCanStart s := by xl_state
+theorem x_c2_state_ChannelCanStart_eq (s : Nat) : Facts.x_c2_state_ChannelCanStart s = channelCanStart s := by
+  xl_state <;> by_cases h : s &&& 4 = 0 <;> simp [h]
 /-- `Last()`: `uint16(load >> 16)` -/
 theorem x_c2_state_Last_eq (s : Nat) : Facts.x_c2_state_Last s = State.last s := rfl
 
